@@ -96,6 +96,8 @@ def gen_doc(rng, k):
     tc = gen_tc(rng)
     lo, hi = tc[2], tc[3]
     d = {"shape": shape, "tc": tc, "intercept": pick_float(rng, 0, 80) if rng.random() < 0.9 else pick_float(rng, -5, 0)}
+    # dtype of the temperature column of the frame handed to predict (whole degrees as int64, float32, float64)
+    d["tdtype"] = ["float64", "float32", "int64"][k % 3] if k < 70 else rng.choice(["float64"] * 4 + ["float32", "int64"])
     for f in FIELDS:
         d[f] = None
     if shape in ("hdd_tidd_cdd_smooth", "hdd_tidd_cdd"):
@@ -172,11 +174,44 @@ def build_model(doc):
 _IDX = {}
 
 
-def frame_for(ts):
+def frame_for(ts, tdtype="float64"):
     n = len(ts)
     if n not in _IDX:
         _IDX[n] = pd.date_range("2021-01-01", periods=n, freq="D", tz="UTC")
-    return pd.DataFrame({"temperature": np.array(ts, dtype=float)}, index=_IDX[n])
+    col = np.array(ts, dtype=float).astype({"float64": np.float64, "float32": np.float32, "int64": np.int64}[tdtype])
+    if not np.array_equal(col.astype(np.float64), np.array(ts, dtype=float)):
+        raise RuntimeError("sweep is not exactly representable in " + tdtype)
+    return pd.DataFrame({"temperature": col}, index=_IDX[n])
+
+
+BP32 = "float32 image of a balance point that is not a float32 number"
+
+
+def bp_points(doc, v):
+    pts = [v["hbp"], v["cbp"], v["lower"], v["upper"]] + [doc[f] for f in ("hdd_bp", "cdd_bp") if doc[f] is not None]
+    return [float(x) for x in pts]
+
+
+def is_bp32_image(doc, v, T):
+    """T is the float32 rounding of a balance point without being that balance point"""
+    return doc.get("tdtype") == "float32" and any(float(np.float32(b)) == T and b != T for b in bp_points(doc, v))
+
+
+def cast_sweep(doc, v, ts):
+    """make the sweep exactly representable in the dtype of the temperature column"""
+    td = doc.get("tdtype", "float64")
+    if td == "int64":
+        out = set()
+        for t in ts:
+            for z in (math.floor(t), math.ceil(t)):
+                if -60 <= z <= 140:
+                    out.add(float(z))
+        return sorted(out)
+    if td == "float32":
+        out = sorted(set(float(np.float32(t)) for t in ts))
+        # the float32 image of a balance point is kept out of the compared sweep (known finding C11-F3, witness stream)
+        return [t for t in out if not is_bp32_image(doc, v, t)]
+    return list(ts)
 
 
 def impl_effective(model):
@@ -197,8 +232,8 @@ def impl_effective(model):
 def run_impl(doc, ts):
     model = build_model(doc)
     xi = impl_effective(model)
-    res = model._predict(frame_for(ts))
-    if len(res) != len(ts) or not np.array_equal(res["temperature"].to_numpy(), np.array(ts)):
+    res = model._predict(frame_for(ts, doc.get("tdtype", "float64")))
+    if len(res) != len(ts) or not np.array_equal(res["temperature"].to_numpy().astype(np.float64), np.array(ts)):
         raise RuntimeError("prediction frame does not line up with the sweep")
     rows = list(zip(ts, map(float, res["predicted"].to_numpy()), map(float, res["heating_load"].to_numpy()),
                     map(float, res["cooling_load"].to_numpy())))
@@ -276,7 +311,8 @@ def oracle(doc, rows, ln_min):
 
     def fail(clause, T, msg, **detail):
         sig = {"clause": clause, "shape": doc["shape"], "corner": CORNER if corner else "no",
-               "T": "> T_max" if T > t_max else "<= T_max"}
+               "T": "> T_max" if T > t_max else "<= T_max", "dtype": doc.get("tdtype", "float64"),
+               "T_vs_bp": BP32 if is_bp32_image(doc, v, T) else "other"}
         key = json.dumps(sig, sort_keys=True)
         if key not in fails:
             fails[key] = (sig, msg, dict(detail, T=T))
@@ -378,11 +414,13 @@ def constants_tie(run):
     return float(LN_MIN_POS_SYSTEM_VALUE)
 
 
-def stream_predict(run, docs, ntemps, ln_min, stream="predict"):
+def stream_predict(run, docs, ntemps, ln_min, stream="predict", compare=True):
     terms, kept = [], []
     for doc in docs:
         v = stored_view(doc)
         ts = doc.get("temps") or gen_temps(run.rng, doc, v, ntemps)
+        if compare:
+            ts = cast_sweep(doc, v, ts)
         try:
             xi, rows = run_impl(doc, ts)
         except Exception as e:  # noqa
@@ -396,6 +434,7 @@ def stream_predict(run, docs, ntemps, ln_min, stream="predict"):
         run.count(vlib.sha([doc, len(ts)]), nontrivial)
         run.cov["temperature_evaluations"] = run.cov.get("temperature_evaluations", 0) + len(ts)
         run.dist("shape", doc["shape"])
+        run.dist("temperature_dtype", doc.get("tdtype", "float64"))
         run.dist("regime", ("corner " if corner else "") + ("smoothed" if smooth else "unsmoothed") +
                  (" equal-bp" if v["hbp"] == v["cbp"] else ""))
         if doc["shape"] == "hdd_tidd_cdd_smooth":
@@ -409,6 +448,8 @@ def stream_predict(run, docs, ntemps, ln_min, stream="predict"):
         terms.append(coq_predict_case(doc, xi, rows))
         kept.append((doc, xi, rows))
         run.sample({"doc": doc, "effective_vector": xi, "first_rows": rows[:3], "n_temperatures": len(rows)})
+    if not compare:
+        return
     bad = run.coq_cases(stream, IMPORTS, "", terms, "check_predict", shard=run.n(60, 60))
     if bad is None:
         run.proof_ok = False
@@ -528,6 +569,17 @@ def corner_docs():
     return out
 
 
+def dtype_witness_docs():
+    """float32 temperature column holding the float32 image of a balance point that is itself not a float32 number
+    (known finding C11-F3): oracle only, the temperature is excluded from the compared sweeps"""
+    base = {f: None for f in FIELDS}
+    t32 = float(np.float32(50.3))
+    return [dict(base, shape="hdd_tidd_cdd", intercept=10.25, hdd_bp=50.3, hdd_beta=2.0, cdd_bp=50.3, cdd_beta=3.0,
+                 tc=[10.0, 90.0, 10.0, 90.0], tdtype="float32", temps=[40.0, 50.0, t32, 51.0, 60.0]),
+            dict(base, shape="hdd_tidd", intercept=20.0, hdd_bp=60.1, hdd_beta=-4.0, tc=[10.0, 90.0, 10.0, 90.0], tdtype="float32",
+                 temps=[40.0, float(np.float32(60.1)), 70.0])]
+
+
 # ------------------------------------------------------------------ main
 
 def main():
@@ -537,7 +589,8 @@ def main():
         "incl. its faces and equal balance points, slopes >= 0 incl. 0 with the stored sign convention, percent-k in "
         "{0, <0.01, 0.01, 0.25..0.75, 1, uniform} incl. sums > 1, one-sided k in {0,0.25,..,30}); each is evaluated through "
         "DailyModel.from_dict(...)._predict on a sweep of -60..140 F that contains the stored and shifted balance points, "
-        "their float neighbours, T_min/T_max/T_*_seg and a uniform grid. distinct = hash(document, sweep length); "
+        "their float neighbours, T_min/T_max/T_*_seg and a uniform grid; the temperature COLUMN of the frame is float64, float32 "
+        "(sweep rounded to float32) or int64 (whole degrees), the model is evaluated at the exact value of each temperature. distinct = hash(document, sweep length); "
         "non-trivial = a shape with a non-zero effective slope. kernel: arbitrary 7-vectors (crossed/equal balance points, "
         "negative k) through the numba kernel directly; smooth: get_smooth_coeffs; exp: own exp vs numpy")
     run.assumptions += [
@@ -566,6 +619,7 @@ def main():
         run.finish()
     # the refuted witnesses first: must reproduce as the known finding
     stream_predict(run, corner_docs(), 0, ln_min, "corner")
+    stream_predict(run, dtype_witness_docs(), 0, ln_min, "dtype_witness", compare=False)
     corpus = os.path.join(vlib.VERIF, "corpus", "C11.json")
     docs = []
     if os.path.exists(corpus):
